@@ -275,7 +275,7 @@ func (c *trCtx) stateStmt(s ast.Stmt, ind string, fset *token.FileSet) ([]string
 		}
 		return []string{ind + "let st := { st with " + id.Name + " := st." + id.Name + " + 1 }"}, nil
 	case *ast.AssignStmt:
-		if x.Tok != token.ASSIGN || len(x.Lhs) != 1 || len(x.Rhs) != 1 {
+		if (x.Tok != token.ASSIGN && x.Tok != token.ADD_ASSIGN) || len(x.Lhs) != 1 || len(x.Rhs) != 1 {
 			return nil, trFail(s, fset, "assignment")
 		}
 		id, ok := x.Lhs[0].(*ast.Ident)
@@ -285,6 +285,10 @@ func (c *trCtx) stateStmt(s ast.Stmt, ind string, fset *token.FileSet) ([]string
 		r, err := c.expr(x.Rhs[0], fset)
 		if err != nil {
 			return nil, err
+		}
+		if x.Tok == token.ADD_ASSIGN {
+			// x += e is x = x + e (the counters are non-negative; -= stays refused)
+			r = "st." + id.Name + " + (" + r + ")"
 		}
 		return []string{ind + "let st := { st with " + id.Name + " := " + r + " }"}, nil
 	case *ast.IfStmt:
